@@ -160,6 +160,11 @@ def c20(ctx, replay):
         "(+- 3 ulp), Rectangle on [-2, 3]; an i16 amplitude of 1 is full scale (32767)",
     ]
     rej, _ = pipeline(ctx, "C20", replay)
+    if ctx.tier == "thorough" and not replay:
+        from props.stream import apalache
+        apalache(ctx, "WindowerAbs", implied=["HintOK"])   # chunk schedule + size hint for ANY L, bin >= 1, hop >= 1
+        ctx.assumptions.append("Apalache inductive invariant of WindowerAbs: the windower's schedule (chunk k at k*hop iff k*hop + bin <= L) and "
+                               "its size hint, for any slice length, bin >= 1, hop >= 1 and any number of calls (fields not re-assigned)")
     ctx.add_rejections(rej)
 
 
